@@ -25,6 +25,8 @@ G = DECGRAMMAR
 
 
 def run(ctx, ss):
+    from .common import keyword_vocabulary
+    ctx.guard("C05.1", keyword_vocabulary, ss, "C05.1", ('model_alias', 'define'), ())
     from .c01 import c01_5
     for r, f in (("C05.1", c05_1), ("C05.2", c05_2), ("C05.3", c05_3)):
         ctx.guard(r, f, ss)
